@@ -191,6 +191,7 @@ pub fn gen_for(rng: &mut Rng, name: &str, k: usize, raw: u128) -> String {
             if k > 32 { format!("{:x}", raw & 0xffff_ffff_ffff_ffff) } else { format!("{:x}", raw) }
         }
         "fromu64" => {
+            // K > 32: any u64 (the leading bases are A's)
             let max: u128 = if k >= 32 { u64::MAX as u128 } else { (1u128 << (2 * k)) - 1 };
             let v = if rng.chance(1, 6) { max } else if rng.chance(1, 6) { 0 } else { (rng.next() as u128) % (max + 1) };
             format!("{}", v)
